@@ -191,6 +191,65 @@ pub fn run(prop: &str, depth: usize) {
                     fail(prop, "pretty-printing a deep chain panicked");
                 }
             }
+            #[cfg(feature = "it-deser")]
+            if prop == "C16" {
+                let rt = |a: &Arena<u32>, what: &str| {
+                    let js = match serde_json::to_string(a) {
+                        Ok(j) => j,
+                        Err(e) => fail(prop, &format!("serialising {what} failed: {e}")),
+                    };
+                    let b: Arena<u32> = match serde_json::from_str(&js) {
+                        Ok(b) => b,
+                        Err(e) => fail(prop, &format!("deserialising {what} failed: {e}")),
+                    };
+                    if b != *a || format!("{:?}", b) != format!("{:?}", a) {
+                        fail(prop, &format!("the round-tripped copy of {what} differs from the original"));
+                    }
+                    b
+                };
+                step("round trips of arenas with 9 to 13, 99 to 102, 130 and 1001 slots (live, removed, recycled and pending slots mixed)");
+                for n in [9usize, 10, 11, 12, 13, 99, 100, 101, 102, 130, 1001] {
+                    let mut a: Arena<u32> = Arena::new();
+                    let mut ids: Vec<NodeId> = Vec::new();
+                    for k in 0..n {
+                        let id = a.new_node(k as u32);
+                        // a forest: every third node a root, the others appended / prepended to an earlier node
+                        if k % 3 == 1 { ids[k / 2].append(id, &mut a); } else if k % 3 == 2 { ids[k / 3].prepend(id, &mut a); }
+                        ids.push(id);
+                    }
+                    // remove some, recycle some of those (so that generations differ), leave some pending
+                    let mut removed = Vec::new();
+                    for k in (2..n).step_by(4) { ids[k].remove(&mut a); removed.push(k); }
+                    for j in 0..removed.len() / 2 { let id = a.new_node(5000 + j as u32); ids[0].append(id, &mut a); ids[usize::from(id) - 1] = id; }
+                    let b = rt(&a, &format!("an arena with {n} slots"));
+                    for (k, id) in ids.iter().enumerate() {
+                        if id.is_removed(&a) != id.is_removed(&b) || a.get(*id).map(|x| (x.parent(), x.first_child(), x.next_sibling(), x.is_removed())) != b.get(*id).map(|x| (x.parent(), x.first_child(), x.next_sibling(), x.is_removed()))
+                            || (!id.is_removed(&a) && a[*id].get() != b[*id].get())
+                        {
+                            fail(prop, &format!("in the copy of an arena with {n} slots the id issued for slot {} addresses a different node", k + 1));
+                        }
+                    }
+                    // the copy continues alike
+                    let (mut a2, mut b2) = (a.clone(), b);
+                    for j in 0..3 { if a2.new_node(j) != b2.new_node(j) { fail(prop, &format!("the copy of an arena with {n} slots issues different ids afterwards")); } }
+                    if a2 != b2 { fail(prop, &format!("the copy of an arena with {n} slots diverges under further calls")); }
+                }
+                step("round trip of a chain grown from the top (every child in a higher slot than its parent)");
+                let (a, _) = chain(depth);
+                rt(&a, "a deep chain grown from the top");
+                step("round trip of a chain grown from the bottom (every node in a lower slot than its parent)");
+                let mut a: Arena<u32> = Arena::new();
+                let mut top = a.new_node(0);
+                for k in 1..depth { let n = a.new_node(k as u32); n.append(top, &mut a); top = n; }
+                rt(&a, "a deep chain grown from the bottom");
+                step("round trip of a node with very many children and of a long top-level chain");
+                let mut w: Arena<u32> = Arena::new();
+                let pnode = w.new_node(0);
+                for k in 0..depth { pnode.append_value(k as u32, &mut w); }
+                rt(&w, "a very wide node");
+                let (a, _) = top_chain(depth);
+                rt(&a, "a long top-level chain");
+            }
             step("done");
         })
         .expect("spawn");
